@@ -36,7 +36,9 @@ def run(ck):
                     r = call(it, s, "compute_batch_gradients", *args)
                     return s, S, Nb, r, args
 
-                paths = paths_of(prog, th, sticky=True, stubs={"NeuralStateBase.positive_phase_gradients": stub_ppg})
+                from .c03 import stub_gradient
+
+                paths = paths_of(prog, th, sticky=True, stubs={"NeuralStateBase.gradient": stub_gradient})
                 for p in returning(paths, inst):
                     shape_err_verdict(ck, "C06.R1", inst, paths)
                     it = p.interp
@@ -46,13 +48,13 @@ def run(ck):
                     ck.check(items is not None and len(items) == len(nets), "C06.R1", inst + ":one gradient per network", msite, "result is not a list with one gradient per network")
                     if items is None or len(items) != len(nets):
                         continue
-                    ppg = [c for c in p.calls if c[0] == "NeuralStateBase.positive_phase_gradients"]
-                    ck.check(len(ppg) == 1, "C06.R1", inst + ":positive phase computed once", msite, "positive_phase_gradients is called %d times" % len(ppg))
-                    if len(ppg) == 1:
-                        env = ppg[0][5]
-                        sb = env.get("samples_batch")
+                    gcalls = [c for c in p.calls if c[0] == "NeuralStateBase.gradient"]
+                    ck.check(len(gcalls) == 1, "C06.R1", inst + ":positive phase computed once", msite, "gradient() of the data batch is evaluated %d times" % len(gcalls))
+                    if len(gcalls) == 1:
+                        env = gcalls[0][5]
+                        sb = env.get("samples")
                         ck.check(isinstance(sb, VTens) and sb.obj is S.obj, "C06.R1", inst + ":positive phase of the data batch", msite, "the positive phase is not computed on samples_batch")
-                        bb = env.get("bases_batch")
+                        bb = env.get("bases")
                         if with_bases:
                             ck.check(isinstance(bb, VTens) and bb.term == T.sym("bases"), "C06.R1", inst + ":bases forwarded", msite, "bases_batch is not forwarded to the positive phase")
                         else:
@@ -77,7 +79,7 @@ def run(ck):
                     red = eg[0][5].get("reduce")
                     ck.check(isinstance(red, VConst) and red.value is True, "C06.R1", inst + ":summed model gradient", msite, "the model gradient is not the batch sum")
                     gm = eg[0][6]
-                    P0 = T.sym("P_rbm_am")
+                    P0 = T.sym("g_rbm_am") * T.inv(T.sym("Bs"))
                     want0 = P0 - gm * T.inv(T.sym("Bn")) if gm is not None else None
                     got0 = items[0].term
                     if want0 is None or got0 is None:
@@ -90,14 +92,14 @@ def run(ck):
                             if got0 == P0 + gm * T.inv(T.sym("Bn")):
                                 d = ("coeff", "model gradient", "+1/Bn", "-1/Bn")
                             elif got0 == P0 - gm * T.inv(T.sym("Bs")):
-                                d = ("dep-extra", ["Bs (divided by the positive batch size)"])
+                                d = ("coeff", "model gradient", "-1/Bs (divided by the positive batch size)", "-1/Bn")
                             elif got0 == P0 - gm:
                                 d = ("dep-missing", ["Bn (not divided by the negative batch size)"])
                             elif got0 == P0:
                                 d = ("dep-missing", ["the negative phase"])
                         ck.check(diff_verdict(d), "C06.R1", inst + ":amplitude update = positive - model/neg_batch_size", msite, "amplitude gradient: " + diff_msg(d), got=got0, want=want0)
                     if len(items) > 1:
-                        ck.check(items[1].term == T.sym("P_rbm_ph"), "C06.R1", inst + ":phase network gets the positive phase only", msite,
+                        ck.check(items[1].term == T.sym("g_rbm_ph") * T.inv(T.sym("Bs")), "C06.R1", inst + ":phase network gets the positive phase only", msite,
                                  "the phase gradient is %r; expected the positive phase unchanged" % (items[1].term,))
     # ------------------------------------------------------------------ R2-R4 order inside fit
     fit = prog.method("NeuralStateBase", "fit")
